@@ -333,3 +333,32 @@ Example C20_serial_nonvacuous :
   mon_new false 9600 true [10] = URaise RuntimeError.
 Proof. vm_compute. repeat split. Qed.
 Print Assumptions C20_serial_nonvacuous.
+
+(* the hypotheses of the implications above are satisfiable by non-trivial histories *)
+Example C20_hypotheses_nonvacuous :
+  (* read-your-writes sandwich: alias q = "07" of p = 7, a busy tail that never digital_writes pin 7 *)
+  normalise s07 = normalise p7 /\
+  Forall (not_dwrite_to (normalise p7))
+         [PinMode p7 INPUT_PULLUP; DWrite sA0 (PI 1); AWrite s7 (PI 3); DRead p7; DWrite (PinS [49; 55]) (PI 1)] /\
+  Forall (not_awrite_to (normalise p7)) [AWrite sA0 (PI 9); AWrite s7 PO; DWrite p7 (PI 1)] /\
+  analog_of (PF (255 # 2)) = Some 128 /\
+  (* non-interference: a write to "7" against reads of "A0" and of "-7" *)
+  normalise (op_pin (DWrite s7 (PI 1))) <> normalise sA0 /\
+  normalise (op_pin (AWrite p7 (PI 1))) <> normalise sm7 /\
+  (* map: a non-degenerate and a degenerate source range *)
+  (~ 0 == 10)%Q /\ ((1 # 2) == (2 # 4))%Q /\
+  (* button / pot / ultra constructors succeed *)
+  button_new (PB true) true true = UOk (mkButton true true false false) /\
+  (exists s, pot_new (Some [65; 49; 53]) = UOk s) /\
+  (exists d, ultra_new (Some HCSR04) None (PI 0) (PI 0) (PF (1 # 2)) = UOk d).
+Proof.
+  split; [reflexivity|].
+  split; [repeat (apply Forall_cons || apply Forall_nil); cbn; try exact I; discriminate|].
+  split; [apply Forall_cons; [left; cbn; discriminate|];
+          apply Forall_cons; [right; reflexivity|];
+          apply Forall_cons; [exact I|apply Forall_nil]|].
+  split; [reflexivity|]. split; [cbn; discriminate|]. split; [cbn; discriminate|].
+  split; [intro H; discriminate H|]. split; [reflexivity|]. split; [reflexivity|].
+  split; [eexists; vm_compute; reflexivity|eexists; vm_compute; reflexivity].
+Qed.
+Print Assumptions C20_hypotheses_nonvacuous.
